@@ -547,3 +547,35 @@ Proof.
   change (disconnect cfg st c) with (step cfg st (Disconnect c)).
   rewrite disconnect_cobs. apply get_del_same.
 Qed.
+
+(* ---- host level ---------------------------------------------------------------- *)
+Lemma host_view_ok : forall priv x m0 m1, host_ok m0 m1 (host_view priv x m0 m1) = true.
+Proof.
+  intros priv [pub hid] m0 m1. unfold host_ok, host_view. cbn [hv_direct hv_addrs hv_hole hx_pub hx_hidden].
+  destruct priv, pub, hid, m0, m1; reflexivity.
+Qed.
+
+Lemma host_monitor_model : forall priv ins, host_monitor (host_model_rows priv ins) = [].
+Proof.
+  intros priv ins. unfold host_monitor. generalize 0.
+  induction ins as [|row r IH]; intros i; [reflexivity|].
+  cbn [host_model_rows map hrun]. fold (host_model_rows priv r).
+  assert (H : forall j, hrow_first_bad (fun _ m0 m1 v => host_ok m0 m1 v) j
+                (map (fun p : hostx * (bool * bool) =>
+                        (fst p, snd p, host_view priv (fst p) (fst (snd p)) (snd (snd p)))) row) = []).
+  { induction row as [|[x [m0 m1]] rr IHr]; intros j; [reflexivity|].
+    cbn [map hrow_first_bad fst snd]. rewrite host_view_ok. apply IHr. }
+  rewrite H. apply IH.
+Qed.
+
+(* an observed address is in a view of the host only while the manager reports it *)
+Lemma host_views_only_while_reported_l : forall priv x m0 m1,
+  let v := host_view priv x m0 m1 in
+  (hv_direct v = true -> m0 = true) /\
+  (hv_addrs v = true -> m0 = true) /\
+  (hv_hole v = true -> m0 = true \/ m1 = true) /\
+  (m0 = false -> m1 = false -> v = mkHV false false false).
+Proof.
+  intros priv [pub hid] m0 m1. unfold host_view. cbn [hv_direct hv_addrs hv_hole hx_pub hx_hidden].
+  destruct priv, pub, hid, m0, m1; cbn; repeat split; auto; discriminate.
+Qed.
